@@ -4,14 +4,19 @@ package main
 
 import (
 	"bytes"
+	"context"
 	"crypto/sha256"
+	"encoding/binary"
 	"fmt"
+	"github.com/ethereum/go-ethereum/log"
 	"github.com/holiman/uint256"
 	"github.com/zen-eth/shisui/storage"
+	"log/slog"
 	"math/rand"
 	"net"
 	"strconv"
 	"strings"
+	"sync"
 	"time"
 
 	"github.com/ethereum/go-ethereum/p2p/enode"
@@ -34,6 +39,7 @@ func runFindContent(o *Out, r *rand.Rand, thorough bool, _ []string) {
 	if thorough {
 		rounds, perRound = 30, 400
 	}
+	perRound = shorter(perRound, thorough)
 	for round := 0; round < rounds; round++ {
 		mn := newMemNet()
 		// every other round the node advertises a small radius: what it HOLDS is served whatever its radius says (a store
@@ -160,55 +166,110 @@ func runFindContent(o *Out, r *rand.Rand, thorough bool, _ []string) {
 // runTransfer: FINDCONTENT end to end between two real protocol instances (real discv5, real uTP) for every size
 // class and version pairing; what the asker ends up with must equal what the responder stores; every datagram on the
 // wire is measured.
-func runTransfer(o *Out, r *rand.Rand, thorough bool, _ []string) {
+func runTransfer(o *Out, r *rand.Rand, thorough bool, args []string) {
 	sizes := []int{0, 1, 1174, 1175, 1176, 1177, 4000}
 	if thorough {
 		sizes = append(sizes, 30000, 100000, 1000, 1172, 1173, 1180, 2500)
 	}
-	pairs := [][2][]uint8{{{0, 1}, {0, 1}}, {{0}, {0, 1}}, {{0, 1}, {0}}, {{0}, {0}}}
+	framingOnly := len(args) > 0 && args[0] == "framing"
+	if framingOnly {
+		// the run C19 uses: only transfers that go over uTP (where the negotiated version frames the stream)
+		sizes = []int{1177, 4000}
+		if thorough {
+			sizes = append(sizes, 30000, 2500)
+		}
+	}
+	pairs := [][2][]uint8{{{0, 1}, {0, 1}}, {{0}, {0, 1}}, {{0, 1}, {0}}, {{0}, {0}}, {{0, 1}, {0, 1}}, {{0}, {0}}}
+	// the last two pairings serve through a SLOW LOG SINK: the serving node's logger takes 300 ms for the line the serving
+	// goroutine writes before it registers its uTP accept, so the asker's SYN is there first. The order in which the two
+	// happen is nobody's to choose; the bytes arrive either way.
+	slowFrom := 4
+	// the pairings run side by side (each on an in-memory network and a PRNG of its own); their lines are written in order
+	lines := make([][][2]string, len(pairs))
+	var wg sync.WaitGroup
 	for pi, pr := range pairs {
-		mn := newMemNet()
-		a := startNode(mn, r, nodeOpts{ip: net.IP{34, 1, 1, byte(1 + pi)}, port: 9300, versions: pr[0], utpLimit: 50})
-		b := startNode(mn, r, nodeOpts{ip: net.IP{34, 2, 2, byte(1 + pi)}, port: 9301, versions: pr[1], utpLimit: 50})
-		// make the peers known to each other (table membership is what FINDCONTENT replies are built from)
-		a.p.AddEnr(b.p.Self())
-		b.p.AddEnr(a.p.Self())
-		if _, err := a.p.VerifPing(b.p.Self()); err != nil {
-			o.Case(fmt.Sprintf("transfer-ping pair=%d", pi), "fail")
-		}
-		for _, sz := range sizes {
-			key := []byte(fmt.Sprintf("k-%d-%d", pi, sz))
-			idh := sha256.Sum256(key)
-			val := genBytes(sz, sz%251)
-			_ = b.store.Put(key, idh[:], val)
-			mn.resetSizes()
-			type res struct {
-				flag byte
-				data interface{}
-				err  error
+		pi, pr := pi, pr
+		r := rand.New(rand.NewSource(r.Int63()))
+		o := &lineBuf{}
+		wg.Add(1)
+		go func() {
+			defer wg.Done()
+			defer func() { lines[pi] = o.lines }()
+			mn := newMemNet()
+			a := startNode(mn, r, nodeOpts{ip: net.IP{34, 1, 1, byte(1 + pi)}, port: 9300, versions: pr[0], utpLimit: 50})
+			b := startNode(mn, r, nodeOpts{ip: net.IP{34, 2, 2, byte(1 + pi)}, port: 9301, versions: pr[1], utpLimit: 50})
+			// make the peers known to each other (table membership is what FINDCONTENT replies are built from)
+			a.p.AddEnr(b.p.Self())
+			b.p.AddEnr(a.p.Self())
+			if _, err := a.p.VerifPing(b.p.Self()); err != nil {
+				o.Case(fmt.Sprintf("transfer-ping pair=%d", pi), "fail")
 			}
-			ch := make(chan res, 1)
-			go func() {
-				f, d, err := a.p.VerifFindContent(b.p.Self(), key)
-				ch <- res{f, d, err}
-			}()
-			var out string
-			select {
-			case x := <-ch:
-				if x.err != nil {
-					out = "error"
-				} else if got, ok := x.data.([]byte); ok {
-					out = fmt.Sprintf("flag=%d same=%d maxdgram_ok=%d", x.flag, b2i(bytes.Equal(got, val)), b2i(mn.maxSize() <= 1280))
-				} else {
-					out = fmt.Sprintf("flag=%d notbytes", x.flag)
+			slow := ""
+			if pi >= slowFrom {
+				b.p.Log = log.NewLogger(slowSink{prefix: "will accept", d: 300 * time.Millisecond})
+				slow = " slowlog=1"
+			}
+			// after the plain sizes: values that LOOK like a framed stream themselves - a varint length followed by exactly that many
+			// bytes (once, or twice nested). They are content like any other and come back byte for byte.
+			type tcase struct {
+				sz    int
+				val   []byte
+				shape string
+			}
+			var cases []tcase
+			for _, sz := range sizes {
+				if slow != "" && sz != 4000 && sz != 1177 {
+					continue
 				}
-			case <-time.After(40 * time.Second):
-				out = "timeout"
+				cases = append(cases, tcase{sz, genBytes(sz, sz%251), ""})
 			}
-			o.Case(fmt.Sprintf("transfer size=%d va=%s vb=%s", sz, csv(pr[0]), csv(pr[1])), out)
+			{
+				v := append(binary.AppendUvarint(nil, 2000), genBytes(2000, 7)...)
+				cases = append(cases, tcase{len(v), v, " shape=selfframed"})
+				w := append(binary.AppendUvarint(nil, 1300), genBytes(1300, 8)...)
+				w2 := append(binary.AppendUvarint(nil, uint64(len(w))), w...)
+				cases = append(cases, tcase{len(w2), w2, " shape=selfframed2"})
+			}
+			for _, tc := range cases {
+				sz, val := tc.sz, tc.val
+				key := []byte(fmt.Sprintf("k-%d-%d%s", pi, sz, tc.shape))
+				idh := sha256.Sum256(key)
+				_ = b.store.Put(key, idh[:], val)
+				mn.resetSizes()
+				type res struct {
+					flag byte
+					data interface{}
+					err  error
+				}
+				ch := make(chan res, 1)
+				go func() {
+					f, d, err := a.p.VerifFindContent(b.p.Self(), key)
+					ch <- res{f, d, err}
+				}()
+				var out string
+				select {
+				case x := <-ch:
+					if x.err != nil {
+						out = "error"
+					} else if got, ok := x.data.([]byte); ok {
+						out = fmt.Sprintf("flag=%d same=%d maxdgram_ok=%d", x.flag, b2i(bytes.Equal(got, val)), b2i(mn.maxSize() <= 1280))
+					} else {
+						out = fmt.Sprintf("flag=%d notbytes", x.flag)
+					}
+				case <-time.After(40 * time.Second):
+					out = "timeout"
+				}
+				o.Case(fmt.Sprintf("transfer size=%d va=%s vb=%s%s%s", sz, csv(pr[0]), csv(pr[1]), tc.shape, slow), out)
+			}
+			a.stop()
+			b.stop()
+		}()
+	}
+	wg.Wait()
+	for _, ls := range lines {
+		for _, l := range ls {
+			o.Case(l[0], l[1])
 		}
-		a.stop()
-		b.stop()
 	}
 	// the serving side knows the asker by an OLDER record that advertises other versions than the asker does now (it was
 	// upgraded or rolled back and re-published its record): framing follows the record of the live session, not the table's
@@ -256,3 +317,25 @@ func runTransfer(o *Out, r *rand.Rand, thorough bool, _ []string) {
 		b.stop()
 	}
 }
+
+// lineBuf collects case lines of a scenario that runs next to others
+type lineBuf struct{ lines [][2]string }
+
+func (b *lineBuf) Case(in, out string) { b.lines = append(b.lines, [2]string{in, out}) }
+
+// slowSink: a log handler that takes its time over the records whose message starts with a given prefix (a blocked terminal,
+// a slow disk, a remote collector) and drops everything
+type slowSink struct {
+	prefix string
+	d      time.Duration
+}
+
+func (h slowSink) Enabled(context.Context, slog.Level) bool { return true }
+func (h slowSink) Handle(_ context.Context, rec slog.Record) error {
+	if strings.HasPrefix(rec.Message, h.prefix) {
+		time.Sleep(h.d)
+	}
+	return nil
+}
+func (h slowSink) WithAttrs([]slog.Attr) slog.Handler { return h }
+func (h slowSink) WithGroup(string) slog.Handler      { return h }
